@@ -19,6 +19,11 @@
 //!   `nl drop k ne… n (s l)…`  `NextLargerProgram::new` with `character_exists = c ∉ ne`; warnings
 //!                    and `get(c)` for all 256 characters against the Lean transcription and the
 //!                    cut-graph specification.
+//!   `tf kind n v…`   the real PL → TFM path: a property list with `n` characters whose width (kind 0),
+//!                    height (1), depth (2) or italic correction (3) takes the values `v…`, through
+//!                    `pl::File::from_pl_source_code` → `tfm::File::from` → `serialize` → `deserialize`;
+//!                    I vs S = Lean `checkTfmTable` on the table and indices read back, with the TRUE
+//!                    PLtoTF limits 255/15/15/63; I vs M = `compress(values, limit)`.
 //!   `plnl n (s l)…`  the same graph as a property list (one CHARACTER entry per endpoint with
 //!                    NEXTLARGER) through `pl::File::from_pl_source_code`: InfiniteLoop warnings and
 //!                    the links that survive in `char_tags` against the specification.
@@ -451,6 +456,117 @@ impl C17 {
         }
     }
 
+    /// The real PL → TFM path: property list text → `pl::File::from_pl_source_code` →
+    /// `tfm::File::from` → `serialize` → `deserialize`; one dimension table (`kind` 0 width,
+    /// 1 height, 2 depth, 3 italic) is checked by Lean against the true PLtoTF limit.
+    fn run_tf(&mut self, rest: &str, drv: &mut Driver, out: &mut CaseOutcome) {
+        const LIMIT: [i64; 4] = [255, 15, 15, 63];
+        const NAME: [&str; 4] = ["CHARWD", "CHARHT", "CHARDP", "CHARIC"];
+        const KIND: [&str; 4] = ["width", "height", "depth", "italic"];
+        let a = parse_i64s(rest);
+        let kind = a[0] as usize;
+        let n = a[1] as usize;
+        let vals: Vec<i64> = a[2..2 + n].to_vec();
+        assert!(kind < 4 && n <= 256);
+        let compressed: Vec<i64> = vals.iter().copied().filter(|v| kind == 0 || *v != 0).collect();
+        let distinct: BTreeSet<i64> = compressed.iter().copied().collect();
+        out.nontrivial = distinct.len() as i64 > LIMIT[kind];
+        let d = distinct.len() as i64 - LIMIT[kind];
+        out.tag(format!("tf:{}:distinct{}", KIND[kind], match d { i64::MIN..=-2 => "<limit-1", -1 => "=limit-1", 0 => "=limit", 1 => "=limit+1", 2 => "=limit+2", _ => ">limit+2" }));
+        let mut src = String::from("(DESIGNSIZE R 10.0)\n");
+        for (c, v) in vals.iter().enumerate() {
+            if kind == 0 {
+                src.push_str(&format!("(CHARACTER O {:o} (CHARWD R {}))\n", c, FixWord(*v as i32)));
+            } else {
+                src.push_str(&format!("(CHARACTER O {:o} (CHARWD R 1.0) ({} R {}))\n", c, NAME[kind], FixWord(*v as i32)));
+            }
+        }
+        let res = caught(|| {
+            let (pl, ws) = tfm::pl::File::from_pl_source_code(&src);
+            let t: tfm::File = pl.into();
+            let before = match kind { 0 => t.widths.clone(), 1 => t.heights.clone(), 2 => t.depths.clone(), _ => t.italic_corrections.clone() };
+            let bytes = t.serialize();
+            let (back, _) = tfm::File::deserialize(&bytes);
+            (ws.len(), before, back)
+        });
+        let (n_warn, before, back) = match res {
+            Err(p) => {
+                out.fail(Kind::ImplPanic, "tf", format!("panic {}", strip_msg(&p)), format!("PL -> TFM -> bytes -> TFM panicked ({} {} values): {p}", n, KIND[kind]));
+                return;
+            }
+            Ok(x) => x,
+        };
+        if n_warn != 0 {
+            out.tag("tf:pl-warnings");
+        }
+        let file = match back {
+            Err(e) => {
+                out.fail(Kind::ImplVsSpec, "tf", format!("tfm {}: serialised file is rejected by the reader", KIND[kind]), format!("{e:?}"));
+                return;
+            }
+            Ok(f) => f,
+        };
+        let table: Vec<FixWord> = match kind { 0 => file.widths.clone(), 1 => file.heights.clone(), 2 => file.depths.clone(), _ => file.italic_corrections.clone() };
+        if table != before {
+            out.fail(Kind::ImplVsSpec, "tf", format!("tfm {}: table changes on serialisation", KIND[kind]), format!("before {} entries, after {}", before.len(), table.len()));
+        }
+        // (value, index read back) per character; one index per value
+        let mut idx: std::collections::BTreeMap<i64, i64> = Default::default();
+        let mut inconsistent = false;
+        for (c, v) in vals.iter().enumerate() {
+            let i = match file.char_dimens.get(&Char(c as u8)) {
+                None => -1,
+                Some(d) => match kind {
+                    0 => d.width_index.valid().map(|x| x.get() as i64).unwrap_or(0),
+                    1 => d.height_index as i64,
+                    2 => d.depth_index as i64,
+                    _ => d.italic_index as i64,
+                },
+            };
+            if let Some(old) = idx.insert(*v, i) {
+                if old != i {
+                    inconsistent = true;
+                }
+            }
+        }
+        if inconsistent || idx.values().any(|i| *i < 0) {
+            out.fail(Kind::ImplVsSpec, "tf", format!("tfm {}: characters with one value get different indices, or a character is missing", KIND[kind]), format!("{idx:?}"));
+            return;
+        }
+        let mut t: Vec<i64> = vec![table.len() as i64];
+        t.extend(table.iter().map(|x| x.0 as i64));
+        let mut p: Vec<i64> = vec![idx.len() as i64];
+        for (v, i) in &idx {
+            p.push(*v);
+            p.push(*i);
+        }
+        // S: Lean checker with the true PLtoTF limit
+        let verdict = drv.ask(&format!("tfchk {} {} {} {} {}", kind, n, join(&vals), join(&t), join(&p)).replace("  ", " "));
+        if verdict != "le=1 near=1 min=1 zero=1" {
+            out.fail(
+                Kind::ImplVsSpec,
+                "tf",
+                format!("tfm {} table (limit {}): {verdict}", KIND[kind], LIMIT[kind]),
+                format!("{} distinct compressed values, table of {} entries read back from the serialised file\nverdict {verdict}\ntable {}\n(value index)… {}", distinct.len(), table.len(), join(&t), join(&p)),
+            );
+        }
+        // M: the model of compress with the true limit
+        let m = drv.ask(&format!("cp {} {} {}", LIMIT[kind], compressed.len(), join(&compressed)).trim_end().to_string());
+        let mut pc: Vec<i64> = vec![];
+        let mut npc = 0;
+        for (v, i) in &idx {
+            if kind == 0 || *v != 0 {
+                pc.push(*v);
+                pc.push(*i);
+                npc += 1;
+            }
+        }
+        let i_show = format!("ok {} {} {}", join(&t), npc, join(&pc)).trim_end().to_string();
+        if i_show != m {
+            out.fail(Kind::ImplVsModel, "tf", format!("tfm {} table differs from compress(values, {})", KIND[kind], LIMIT[kind]), format!("impl {i_show}\nmodel {m}"));
+        }
+    }
+
     fn run_nl(&mut self, case: &str, rest: &str, drv: &mut Driver, out: &mut CaseOutcome) {
         let a = parse_i64s(rest);
         let drop = a[0] != 0;
@@ -804,6 +920,48 @@ fn plnl_case(es: &[(u8, u8)]) -> String {
     format!("plnl {}", join(&v))
 }
 
+/// `tf` cases: `n` characters whose `kind` dimension takes `n` (mostly distinct) values.
+fn gen_tf(r: &mut Rng, kind: usize, n: usize, style: u64) -> String {
+    let n = n.min(256);
+    let mut vals: Vec<i64> = match style {
+        // arithmetic progression: the optimal tolerance is a known multiple of the step
+        0 => {
+            let step = *r.pick(&[1i64, 2, 3, 1000, 65536]);
+            (0..n as i64).map(|i| (i + 1) * step).collect()
+        }
+        // random distinct values in the legal range, both signs
+        1 => {
+            let mut s = BTreeSet::new();
+            while s.len() < n {
+                let v = r.range(-(1 << 24) + 1, (1 << 24) - 1);
+                if v != 0 {
+                    s.insert(v);
+                }
+            }
+            s.into_iter().collect()
+        }
+        // widely spread with a few very close pairs: the optimal tolerance is tiny
+        2 => {
+            let mut v: Vec<i64> = (0..n as i64).map(|i| (i + 1) * 60000).collect();
+            for _ in 0..r.range(1, 3) {
+                let i = r.below(n.max(2) as u64 - 1) as usize;
+                if i + 1 < v.len() {
+                    v[i + 1] = v[i] + r.range(1, 3);
+                }
+            }
+            v
+        }
+        // with zeros and duplicates
+        _ => (0..n).map(|_| if r.chance(1, 10) { 0 } else { r.range(1, (n as i64) * 2) * 4096 }).collect(),
+    };
+    // characters in random order
+    for i in (1..vals.len()).rev() {
+        let j = r.below((i + 1) as u64) as usize;
+        vals.swap(i, j);
+    }
+    format!("tf {} {} {}", kind, vals.len(), join(&vals)).trim_end().to_string()
+}
+
 fn gen_nl(r: &mut Rng, max_nodes: usize) -> String {
     let n = 1 + r.below(max_nodes as u64) as usize;
     // distinct labels
@@ -856,8 +1014,8 @@ impl Property for C17 {
          ps: structured random decimal texts (prefix, signs, integer part around 2047/2048, 0..9 fraction digits, junk) through the real reader; \
          sc: (value, design size) grid over boundary values (bytes of v, z at every halving threshold) and random pairs; \
          cp: all lists of length ≤ 4 over 6 values × class limits 1..3, then random multisets of ≤ 300 values (clustered, progressions, legal range, powers of two, a few at the ends of the i32 range) × class limits 1..255; \
-         nl: all functional graphs on ≤ 5 nodes (quick: ≤ 4, and a third of those on 5) with permuted labels, random graphs ≤ 256 nodes (random maps, permutations, one big cycle, chains, forests), non-existent targets kept/dropped; structured extreme graphs on all 256 characters (stars onto hubs 0/65/200/255 with in-degree 254/255/256, several hubs, paths of length 254..256 into cycles of length 1..256, c -> c+k mod 256, 128 two-cycles, permutations of many cycle types) as a fixed set plus random ones (hubs, random permutations, relabelled stars and paths), and the same shapes through a property list with one CHARACTER/NEXTLARGER entry per character (plnl: InfiniteLoop warnings and surviving links against the cut graph; quick: a quarter of them, thorough: all). \
-         Non-trivial = pp: some value with a non-zero fraction; ps: text contains a digit; sc: inside the guard with v ≠ 0 and ds ≠ 0; cp: more distinct values than classes; nl: at least 2 edges; sweeps always. distinct = distinct case string."
+         tf: property lists with n characters whose width/height/depth/italic takes n values, n at and around the true limits (254..256 widths, 14..17 and 30 heights/depths, 62..65 and 126 italics, 256 of each), as arithmetic progressions, random legal values of both signs, spread values with a few close pairs, values with zeros and duplicates, characters shuffled, through from_pl_source_code -> tfm::File::from -> serialize -> deserialize, the table and indices read back checked by Lean against the TRUE PLtoTF limits 255/15/15/63 and against the model of compress; nl: all functional graphs on ≤ 5 nodes (quick: ≤ 4, and a third of those on 5) with permuted labels, random graphs ≤ 256 nodes (random maps, permutations, one big cycle, chains, forests), non-existent targets kept/dropped; structured extreme graphs on all 256 characters (stars onto hubs 0/65/200/255 with in-degree 254/255/256, several hubs, paths of length 254..256 into cycles of length 1..256, c -> c+k mod 256, 128 two-cycles, permutations of many cycle types) as a fixed set plus random ones (hubs, random permutations, relabelled stars and paths), and the same shapes through a property list with one CHARACTER/NEXTLARGER entry per character (plnl: InfiniteLoop warnings and surviving links against the cut graph; quick: a quarter of them, thorough: all). \
+         Non-trivial = pp: some value with a non-zero fraction; ps: text contains a digit; sc: inside the guard with v ≠ 0 and ds ≠ 0; cp: more distinct values than classes; tf: more distinct compressed values than the true limit; nl: at least 2 edges; sweeps always. distinct = distinct case string."
             .into()
     }
     fn builtin_corpus(&self) -> Vec<String> {
@@ -1022,6 +1180,36 @@ impl Property for C17 {
         for _ in 0..n_nl {
             v.push(gen_nl(&mut r, 24));
         }
+        // the real PL -> TFM path at and around the true class limits 255 / 15 / 15 / 63
+        {
+            let mut r = rng.fork();
+            let limits = [255usize, 15, 15, 63];
+            for kind in 0..4 {
+                let l = limits[kind];
+                let mut ns = vec![1, l - 1, l, l + 1, l + 2, 2 * l, 256];
+                if kind == 0 {
+                    ns = vec![1, 100, 254, 255, 256];
+                }
+                for n in ns {
+                    for style in 0..4 {
+                        if t || style < 3 || n == l + 1 {
+                            v.push(gen_tf(&mut r, kind, n, style));
+                        }
+                    }
+                }
+            }
+            for _ in 0..(if t { 600 } else { 40 }) {
+                let kind = r.below(4) as usize;
+                let l = limits[kind];
+                let n = match r.below(4) {
+                    0 => r.range(1, 256) as usize,
+                    1 => l + 1,
+                    _ => (l as i64 + r.range(-3, 6)).clamp(1, 256) as usize,
+                };
+                let style = r.below(4);
+                v.push(gen_tf(&mut r, kind, n, style));
+            }
+        }
         // structured extreme graphs on all 256 characters (hubs of in-degree 255/256, long paths,
         // permutations of every cycle type): a fixed set, then random ones; the same shapes
         // through a property list (256 CHARACTER entries with NEXTLARGER)
@@ -1056,6 +1244,7 @@ impl Property for C17 {
             "cp" => self.run_cp(case, rest, drv, &mut out),
             "nl" => self.run_nl(case, rest, drv, &mut out),
             "plnl" => self.run_plnl(rest, drv, &mut out),
+            "tf" => self.run_tf(rest, drv, &mut out),
             _ => panic!("bad case {case}"),
         }
         out
@@ -1090,6 +1279,11 @@ impl Property for C17 {
                 // smaller numbers
                 let small: Vec<i64> = a[2..].iter().map(|x| x / 2).collect();
                 c.push(format!("cp {} {} {}", max, small.len(), join(&small)));
+            }
+            "tf" => {
+                let a = parse_i64s(rest);
+                let kind = a[0];
+                halves(&a[2..], &|x| format!("tf {} {} {}", kind, x.len(), join(x)).trim_end().to_string(), &mut c);
             }
             "plnl" => {
                 let a = parse_i64s(rest);
